@@ -8,6 +8,7 @@ import (
 	"testing"
 	"time"
 
+	"github.com/33cn/chain33/blockchain"
 	"github.com/33cn/chain33/common"
 	"github.com/33cn/chain33/types"
 
@@ -77,6 +78,7 @@ func (pushEngine) Generate(prop string, r *simrt.RNG, tier string, run int) *sim
 		next++
 	}
 	subbed := 0
+	restarts := r.Chance(1, 3)
 	for k, id := range order {
 		sc.Ops = append(sc.Ops, simrt.Op{K: "dlv", I: []int64{int64(id), int64(r.Intn(2)), 0}})
 		if k >= 1 && (subbed < nSubs && r.Chance(1, 3)) {
@@ -89,6 +91,9 @@ func (pushEngine) Generate(prop string, r *simrt.RNG, tier string, run int) *sim
 		}
 		if r.Chance(1, 3) {
 			sc.Ops = append(sc.Ops, simrt.Op{K: "sleep", I: []int64{int64(r.Range(100, 70000))}})
+		}
+		if restarts && k >= 2 && r.Chance(1, 8) {
+			sc.Ops = append(sc.Ops, simrt.Op{K: "restart"})
 		}
 	}
 	return sc
@@ -109,6 +114,7 @@ type subscriber struct {
 	healed     bool  // outcome script exhausted / faults stopped: always ack
 	known      bool  // lastAcked is defined
 	lastAcked  int64 // highest sequence the subscriber acknowledged
+	realAck    bool  // at least one delivery was acknowledged (before that lastAcked is the start position)
 	registered bool
 }
 
@@ -223,6 +229,7 @@ func (ep *endpoint) PostData(req *types.PushSubscribeReq, data []byte, updateSeq
 	switch outcome {
 	case 0:
 		s.known = true
+		s.realAck = true
 		s.lastAcked = updateSeq
 		ep.ctx.Probes["acked_payloads"]++
 		ep.mu.Unlock()
@@ -265,8 +272,9 @@ func (pushEngine) run(ctx *simrt.Ctx) *simrt.Violation {
 	defer w.Fac.Close()
 	defer w.Fac.Disk.Remove()
 	sut := simnode.New(simnode.Opts{ID: "sut-" + uid, StubMempool: true})
-	defer sut.Close()
+	defer func() { sut.Close() }()
 	defer sut.Disk.Remove()
+	nrestart := 0
 	simrt.Settle()
 	time.Sleep(2 * time.Second)
 	ep := &endpoint{ctx: ctx, subs: map[string]*subscriber{}, sut: sut}
@@ -363,6 +371,29 @@ func (pushEngine) run(ctx *simrt.Ctx) *simrt.Violation {
 		case "sleep":
 			time.Sleep(time.Duration(op.Int(0)) * time.Millisecond)
 			simrt.Settle()
+		case "restart":
+			// a clean stop and restart: subscriptions, their status and their
+			// progress are what the database says
+			time.Sleep(time.Second)
+			simrt.Settle()
+			disk := sut.Disk
+			sut.Close()
+			simrt.Settle()
+			nrestart++
+			blockchain.VerifDefaultPostService = ep
+			nn := simnode.New(simnode.Opts{ID: fmt.Sprintf("sut-%s-r%d", uid, nrestart), Disk: disk, StubMempool: true})
+			blockchain.VerifDefaultPostService = nil
+			ep.mu.Lock()
+			ep.sut = nn
+			ep.mu.Unlock()
+			sut = nn
+			if !sut.Chain.VerifSetPostService(ep) {
+				simrt.Failf("push is not enabled on the restarted node")
+			}
+			simrt.Settle()
+			time.Sleep(2 * time.Second)
+			simrt.Settle()
+			ctx.Fault("restart")
 		case "sub":
 			register(ep.subs[fmt.Sprintf("sub%d", op.Int(0)%nSubs)], int32(op.Int(1)%4), op.Int(2))
 		}
@@ -425,7 +456,9 @@ func (pushEngine) run(ctx *simrt.Ctx) *simrt.Violation {
 			if sub.lastAcked != last && healBlocks >= 2 && sub.ty != 2 {
 				return ctx.Violate("push-not-caught-up", "after-heal", "%s (type %d): %d virtual seconds after the endpoint stopped failing and the subscriber re-registered it has acknowledged up to %d, the log ends at %d (node records %d)", sub.name, sub.ty, 330, sub.lastAcked, last, n)
 			}
-			if n != sub.lastAcked && sub.ty != 2 {
+			// (before the first acknowledgement the node has nothing to record; it
+			// must not record anything beyond the start position either)
+			if (sub.realAck && n != sub.lastAcked || !sub.realAck && n > sub.lastAcked) && sub.ty != 2 {
 				return ctx.Violate("push-recorded-before-ack", "quiescent-mismatch", "%s: at quiescence the node records %d, the subscriber acknowledged %d", sub.name, n, sub.lastAcked)
 			}
 		}
